@@ -43,6 +43,9 @@ impl NotificationHandler<DidCloseTextDocument> for DidCloseTextDocumentHandler {
             .lock()
             .unwrap()
             .remove(&params.text_document.uri.to_file_path().unwrap());
+        // The buffer is gone, so from now on the file's contents on disk (if any) are what counts
+        ctx.perform_codegen();
+        publish_diagnostics(ctx)?;
         Ok(())
     }
 }
